@@ -32,6 +32,7 @@ import TableauVerif.Model.EnumLit
 import TableauVerif.Spec.C03Enum
 import TableauVerif.Spec.C20Dur
 import TableauVerif.Model.Importer
+import TableauVerif.Spec.Grid
 namespace Driver
 open TableauVerif TableauVerif.Model
 
@@ -354,6 +355,22 @@ def c20 (fn : String) (a : List String) : Option String := do
   | "o.c20.dur", [raw, obs] => some (Spec.C20Dur.holdsDur (← decStr? raw) (← decDRes? obs))
   | "c20.ts", [_name, zone, raw] => some (encTRes (Time.parseTimestamp (← decZone? zone) (← decStr? raw)))
   | "c20.gen", [_loc, _machine, _eff, zone, raw] => some (encTRes (Time.parseTimestamp (← decZone? zone) (← decStr? raw)))
+  | "c20.emitz", [_loc, _machine, _eff, zone, raw] =>
+    let z ← decZone? zone
+    some (match Time.parseTimestamp z (← decStr? raw) with
+      | .ok t => s!"okz {t} {Time.lookupOffset z t}"
+      | r => encTRes r)
+  | "o.c20.emitz", [_loc, _machine, _eff, zone, raw, obs] =>
+    let z ← decZone? zone
+    match obs.splitOn " " with
+    | ["okz", tS, offS] =>
+      let t ← decInt? tS; let off ← decInt? offS
+      let v := Spec.C20.holdsTs z (← decStr? raw) (.ok t)
+      -- the same instant, shown with the offset the location has at that instant
+      some (match v with
+        | .holds => if off != Time.lookupOffset z t then "FAILS" else "holds"
+        | v => v.toString)
+    | _ => some (Spec.C20.holdsTs z (← decStr? raw) (← decTRes? obs)).toString
   | "o.c20.gen", [_loc, _machine, _eff, zone, raw, obs] =>
     some (Spec.C20.holdsTs (← decZone? zone) (← decStr? raw) (← decTRes? obs)).toString
   | "o.c20.ts", [_name, zone, raw, obs] =>
@@ -421,6 +438,11 @@ def imp (fn : String) (a : List String) : Option String := do
     let rows ← decGrid? g
     let out := if style == "xlsx" then Importer.xlsxGrid rows else Importer.csvGrid (style == "csv-all") rows
     some ("rows " ++ encGrid out)
+  | "o.imp.grid", [style, g, obs] =>
+    let rows ← decGrid? g
+    if !obs.startsWith "rows " then some "FAILS" else
+    let got ← decGrid? (obs.drop 5).toString
+    some (if Spec.Grid.holds (style.startsWith "csv" && style != "csv-all") rows got then "holds" else "FAILS")
   | _, _ => none
 
 def dispatch (line : String) : String :=
@@ -428,7 +450,7 @@ def dispatch (line : String) : String :=
   | [] => "bad-op"
   | fn :: args =>
     let r :=
-      if fn.startsWith "imp." then imp fn args
+      if fn.startsWith "imp." || fn.startsWith "o.imp." then imp fn args
       else if fn.startsWith "c14." || fn.startsWith "o.c14." then c14 fn args
       else if fn.startsWith "c07.corrupt" || fn.startsWith "o.c07.corrupt" || fn.startsWith "w.c07." || fn.startsWith "c07.skip" || fn.startsWith "o.c07.skip" then tp fn args
       else if fn.startsWith "c07.book" || fn.startsWith "o.c07.book" then c11 fn args
@@ -443,7 +465,7 @@ def dispatch (line : String) : String :=
       else if fn.startsWith "c20." || fn.startsWith "o.c20." then c20 fn args
       else if fn.startsWith "c05." || fn.startsWith "o.c05." then c05 fn args
       else if fn.startsWith "c11." || fn.startsWith "o.c11." then c11 fn args
-      else if fn.startsWith "doc." then doc fn args
+      else if fn.startsWith "doc." || fn.startsWith "o.doc." then doc fn args
       else if fn.startsWith "c17." || fn.startsWith "o.c17." || fn.startsWith "pg." || fn.startsWith "o.pg." || fn.startsWith "c10." || fn.startsWith "o.c10." || fn.startsWith "c09." || fn.startsWith "o.c09." || fn.startsWith "c19." || fn.startsWith "o.c19." || fn.startsWith "c02." || fn.startsWith "o.c02." || fn.startsWith "c15." || fn.startsWith "o.c15." || fn.startsWith "c08." || fn.startsWith "o.c08." then pg fn args
       else if fn.startsWith "c18." || fn.startsWith "o.c18." || fn.startsWith "c04.rewrite" || fn.startsWith "o.c04.rewrite" then c18 fn args
       else if fn.startsWith "c04." || fn.startsWith "o.c04." || fn.startsWith "c16." || fn.startsWith "o.c16." || fn.startsWith "c06." || fn.startsWith "o.c06." then c04 fn args
